@@ -51,7 +51,7 @@ var assertExceptions = map[string]string{
 }
 
 func runC20(w *World, r *Report) {
-	r.Rule("C20/PANIC", "every single-result type assertion reachable from the public input-handling entry points is dominated by a matching type test of the same operand (comma-ok assertion, type predicate, or creation of the slot with that type), or is only reachable below one of helm's recover wrappers", 15)
+	r.Rule("C20/PANIC", "every single-result type assertion reachable from the public input-handling entry points is dominated by a matching type test of the same operand (comma-ok assertion, type predicate, or creation of the slot with that type), or is only reachable below one of helm's recover wrappers", 10)
 	r.Rule("C20/V-ERR", "in those functions the pointer/map result of a (value, error) call is dereferenced only where the error was tested nil or the value tested non-nil", 25)
 	r.Rule("C20/NIL-ELEM", "loaders that promise element-wise valid pointer slices remove or reject nil elements on every path (repository index entries; chart metadata dependencies and maintainers)", 3)
 	r.Rule("C20/RECOVER-PRESENT", "the recover wrappers the property relies on exist and are installed before anything else in their function (template rendering, --set key parsing, schema validation)", 4)
